@@ -178,15 +178,20 @@ idl_a_demux_feed		(vbi_idl_demux *	dx,
 		}
 	}
 
-	histbyte = ci;
 	dupecount = 0;
 
 	dx->ci = ci + 1;
 
+	/* 6.5.7.1: The run of equal bytes in front of a dummy byte
+	   consists of transmitted bytes. The byte in front of the user
+	   data is DL, or an explicitly transmitted CI, or a byte which
+	   is not part of the CI, DL, user data group. */
 	if (ft & FT_HAVE_DL) {
+		histbyte = buffer[4 + i];
 		dl = buffer[4 + i++] & 0x3F;
 		dl = MIN (dl, 36 - i);
 	} else {
+		histbyte = (ft & FT_HAVE_CI) ? ci : 0x55;
 		dl = 36 - i;
 	}
 
